@@ -198,6 +198,9 @@ func (it *Interp) finishStage(st *Stage) {
 		if in.S.Len != nil && lin.ProveEQ(it.G, in.S.Consumed, in.S.Len) {
 			in.Drained = true
 		}
+		if (in.S.Homog || in.Homog) && in.Partial {
+			in.Drained = false // siblings of different lengths: the arithmetic on the representative does not apply
+		}
 		for _, r := range in.S.Readers {
 			if r.Stage == st {
 				r.Drained = in.Drained
@@ -478,6 +481,7 @@ func (it *Interp) stageOpaqueIf(fr *Frame, x *ast.IfStmt) ctl {
 // Loops.
 
 type loopItem struct {
+	homog   bool   // the stream stands for a symbolic number of siblings
 	kind    string // "recv", "send", "put", "get"
 	s       *Stream
 	checked bool
@@ -492,6 +496,7 @@ type loopItem struct {
 }
 
 type loopCtx struct {
+	homog  int // >0 while scanning the body of a range over a slice of symbolic length
 	items  []*loopItem
 	ok     bool
 	lastOk types.Object
@@ -592,7 +597,7 @@ func (it *Interp) scanLoop(fr *Frame, list []ast.Stmt, lc *loopCtx) {
 						it.undecided(x.Pos(), "receive from a non-stream value "+showVal(v))
 						continue
 					}
-					item := &loopItem{kind: "recv", s: str, pos: x.Pos(), fr: fr}
+					item := &loopItem{kind: "recv", s: str, pos: x.Pos(), fr: fr, homog: lc.homog > 0 || str.Homog}
 					if len(x.Lhs) == 2 {
 						okObj := lhsObj(fr, x.Lhs[1])
 						if okObj != nil && i+1 < len(list) {
@@ -683,7 +688,9 @@ func (it *Interp) scanLoop(fr *Frame, list []ast.Stmt, lc *loopCtx) {
 			}
 			if sl.Homog {
 				bind(sl.Rep)
+				lc.homog++
 				it.scanLoop(fr, x.Body.List, lc)
+				lc.homog--
 			} else {
 				for _, el := range sl.Elems {
 					bind(el)
@@ -1155,6 +1162,19 @@ func (it *Interp) finishLoop(fr *Frame, bound *lin.Expr, lc *loopCtx, pos token.
 		full := true
 		for _, e := range exits {
 			if e.Closed == i.s {
+				if i.homog {
+					// the stream stands for several siblings: when one closes the others are
+					// drained only if the failure branch drains them
+					d := false
+					for _, x := range e.Drains {
+						if x == i.s {
+							d = true
+						}
+					}
+					if !d {
+						full = false
+					}
+				}
 				continue
 			}
 			d := false
@@ -1165,6 +1185,12 @@ func (it *Interp) finishLoop(fr *Frame, bound *lin.Expr, lc *loopCtx, pos token.
 			}
 			if !d {
 				full = false
+			}
+		}
+		if in := ss.ins[i.s]; in != nil {
+			in.Partial = !full
+			if i.homog {
+				in.Homog = true
 			}
 		}
 		if full && i.checked {
